@@ -201,9 +201,16 @@ def _gen_cases(tier, seed):
                 for f2 in fus[::2]:
                     yield _case('two', _base_ops(0, s0) + _base_ops(1, ['ANY']) + f1 + f2, each=1)
     # C: seeded random rule sets and histories
-    rnd = random.Random(seed * 7919 + 2)
+    for c in _random_cases(random.Random(seed * 7919 + 2), 250 if tier == 'quick' else 6000):
+        yield c
+    # D: rewritten verbs - before_request method override and internal forwards
+    for c in _rewrite_cases(tier, seed):
+        yield c
+
+
+def _random_cases(rnd, count):
     pool = [r for r in RC.rule_pool() if not any('\r' in s[1] for s in r if S.is_lit(s))]
-    for _ in range(250 if tier == 'quick' else 6000):
+    for _ in range(count):
         rules = []
         for _t in range(40):
             if len(rules) >= rnd.choice([2, 3, 4]):
@@ -303,7 +310,51 @@ def _check_state(app, log, rules, toks, tables, paths, step):
     return None
 
 
+def _apply_op(app, op, step, texts, toks, tables, handlers, new_handler):
+    """Play one history op on the real application and on the model table; a failure or None."""
+    if op[0] == 'add':
+        _, ri, methods, hid, ow, via = op
+        if hid not in handlers:
+            handlers[hid] = new_handler(hid)
+        h = handlers[hid]
+        steps = [[m] for m in methods] if via == 'short' else [methods]
+        for ms in steps:                     # the shortcut API registers one method per call
+            try:
+                _register(app, 'short' if via == 'short' else via, texts[ri], ms, h, bool(ow))
+                accepted = True
+            except Exception as e:  # noqa - the contract decides
+                accepted = False
+                err = '%s: %s' % (type(e).__name__, str(e)[:200])
+            ok_here = bool(ow) or not ({m.upper() for m in ms} & set(tables.get(toks[ri], {})))
+            if accepted:
+                t = tables.setdefault(toks[ri], {})
+                for m in ms:
+                    t[m.upper()] = hid
+            elif ok_here:
+                return fail('K0.accept', op=op, error=err, after_op=step)
+    else:
+        _, ri, m, via = op
+        route = app.router[{texts[ri]}]
+        table = tables.get(toks[ri])
+        if route is None and table is not None:
+            return fail('K3.split', level='lookup', detail='route object of a registered rule not found',
+                        rule=texts[ri], after_op=step)
+        if route is not None:
+            try:
+                if via == 'meth' and m in route.methods:
+                    route.methods[m].remove()
+                else:
+                    route.remove_method(m)
+            except Exception:  # noqa - removing what is not there may be refused; the table must not change
+                pass
+        if table is not None:
+            table.pop(m, None)
+    return None
+
+
 def run_case(case):
+    if case.get('kind') in ('hook', 'forward'):
+        return _run_rewrite_case(case)
     import ombott
     app = ombott.Ombott()
     log = []
@@ -314,47 +365,219 @@ def run_case(case):
     tables = {}         # pattern -> {METHOD: hid}; a pattern is present once a route was created for it
     nops = len(case['ops'])
     for step, op in enumerate(case['ops']):
-        if op[0] == 'add':
-            _, ri, methods, hid, ow, via = op
-            h = handlers.setdefault(hid, RC.make_handler(hid, log))
-            steps = [[m] for m in methods] if via == 'short' else [methods]
-            for ms in steps:                     # the shortcut API registers one method per call
-                try:
-                    _register(app, 'short' if via == 'short' else via, texts[ri], ms, h, bool(ow))
-                    accepted = True
-                except Exception as e:  # noqa - the contract decides
-                    accepted = False
-                    err = '%s: %s' % (type(e).__name__, str(e)[:200])
-                ok_here = bool(ow) or not ({m.upper() for m in ms} & set(tables.get(toks[ri], {})))
-                if accepted:
-                    t = tables.setdefault(toks[ri], {})
-                    for m in ms:
-                        t[m.upper()] = hid
-                elif ok_here:
-                    return fail('K0.accept', op=op, error=err, after_op=step)
-        else:
-            _, ri, m, via = op
-            route = app.router[{texts[ri]}]
-            table = tables.get(toks[ri])
-            if route is None and table is not None:
-                return fail('K3.split', level='lookup', detail='route object of a registered rule not found',
-                            rule=texts[ri], after_op=step)
-            if route is not None:
-                try:
-                    if via == 'meth' and m in route.methods:
-                        route.methods[m].remove()
-                    else:
-                        route.remove_method(m)
-                except Exception:  # noqa - removing what is not there may be refused; the table must not change
-                    pass
-            if table is not None:
-                table.pop(m, None)
+        f = _apply_op(app, op, step, texts, toks, tables, handlers, lambda hid: RC.make_handler(hid, log))
+        if f:
+            return f
         if case.get('each') or step == nops - 1:
             f = _check_state(app, log, rules, toks, tables, case['paths'], step)
             if f:
                 return f
     if not nops:
         return _check_state(app, log, rules, toks, tables, case['paths'], -1)
+    return None
+
+
+# ----------------------------------------------------------------------------- rewritten verbs (hook / internal forward)
+# "the request goes to the handler registered for ITS method": the method of a request is the REQUEST_METHOD its environ
+# carries when routing happens.  Two ordinary ways in which that differs from the verb the environ was first seen with:
+#   kind 'hook'     a before_request hook (the documented place: "request context available, no routing has happened yet")
+#                   looks at request.method and rewrites request['REQUEST_METHOD'] (HTML-form `_method` override);
+#   kind 'forward'  a handler serves the application again with a copy of its environ whose REQUEST_METHOD / PATH_INFO
+#                   were rewritten (internal forward); the forwarded environ is a request of its own.
+# In both the expected answer is the independent oracle (spec select + dispatch on the model table) applied to the
+# REWRITTEN verb (and path); clauses K1/K2/K3 as above, reported with level 'app+hook' / 'app+forward'.
+PAIRS = [['POST', 'DELETE'], ['POST', 'delete'], ['POST', 'put'], ['POST', 'PUT'], ['POST', 'GET'], ['post', 'get'],
+         ['POST', 'HEAD'], ['POST', 'Head'], ['POST', 'PATCH'], ['POST', 'any'], ['POST', 'POST'], ['GET', 'POST'],
+         ['GET', 'pOsT'], ['GET', 'HEAD'], ['GET', 'put'], ['GET', 'OPTIONS'], ['GET', ''], ['get', 'Head'],
+         ['HEAD', 'GET'], ['HEAD', 'POST'], ['Head', 'post'], ['HEAD', 'ANY'], ['PUT', 'GET'], ['put', 'POST'],
+         ['put', 'head'], ['DELETE', 'GET'], ['OPTIONS', 'pOsT'], ['PATCH', 'put'], ['ANY', 'GET'], ['any', 'head'],
+         ['', 'POST'], ['', 'GET']]
+PAIRS_404 = [['POST', 'GET'], ['GET', 'post'], ['HEAD', 'put']]
+ARRIVE = ['POST', 'GET', 'head', 'put', 'DELETE']
+TARGETS = ['GET', 'get', 'POST', 'pOsT', 'HEAD', 'Head', 'put', 'PUT', 'DELETE', 'ANY', 'OPTIONS', '']
+
+
+def _rewrite_cases(tier, seed):
+    subsets = list(_subsets(METHODS))
+    vias = ['router', 'app', 'deco', 'short']
+    k = 0
+    # routes /r and /r/:x: all 32 tables on /r x 4 tables on /r/:x (and mirrored), every hook flavour in turn
+    for s0 in subsets:
+        for s1 in SOME_TABLES:
+            k += 1
+            base = _case('two', _base_ops(0, s0) + _base_ops(1, s1))
+            yield dict(base, kind='hook', pairs=PAIRS, read=k % 3)
+            yield dict(base, kind='hook', pairs=PAIRS[(k % 4)::4], read=(k + 1) % 3)
+            yield dict(base, kind='forward', arrive=ARRIVE, targets=TARGETS, copy='copy')
+            if k % 4 == 0:
+                yield dict(base, kind='forward', arrive=ARRIVE[:2], targets=TARGETS, copy='fresh')
+    for s1 in subsets:
+        k += 1
+        base = _case('two', _base_ops(1, s1) + _base_ops(0, ['GET', 'put']))
+        yield dict(base, kind='hook', pairs=PAIRS, read=1 + k % 2)
+        yield dict(base, kind='forward', arrive=ARRIVE, targets=TARGETS, copy='copy')
+    # tables left behind by a follow-up op (overwrite, refused re-add, removal)
+    for s0 in subsets[::2]:
+        for fu in _followups(0, s0)[1::2]:
+            k += 1
+            base = _case('two', _base_ops(0, s0) + _base_ops(1, ['POST', 'ANY']) + fu)
+            if k % 2:
+                yield dict(base, kind='hook', pairs=PAIRS[(k % 2)::2], read=1)
+            else:
+                yield dict(base, kind='forward', arrive=ARRIVE[:3], targets=TARGETS[(k % 4) // 2::2], copy='copy')
+    # the other rule sets: 8 x 8 tables, registration API and flavour varied
+    for rs, d in RULE_SETS.items():
+        if rs == 'two':
+            continue
+        nr = len(d['rules'])
+        for s0 in EIGHT:
+            for s1 in EIGHT:
+                k += 1
+                tabs = [s0, s1] + ([EIGHT[(k + 3) % 8]] if nr == 3 else [])
+                fl = [S.FLAVOURS[(k + i) % 3] for i in range(nr)]
+                ops = []
+                for ri in range(nr):
+                    ops += _base_ops(ri, tabs[ri], vias[(k + ri) % 4])
+                base = _case(rs, ops, fl)
+                if k % 2:
+                    yield dict(base, kind='hook', pairs=PAIRS[(k % 4) // 2::2], read=1 + (k // 2) % 2)
+                else:
+                    yield dict(base, kind='forward', arrive=ARRIVE[:3], targets=TARGETS[(k % 4) // 2::2], copy='copy')
+    # seeded random rule sets and histories (the generator of part C), alternating hook / forward
+    n = 0
+    for c in _random_cases(random.Random(seed * 7919 + 5), 120 if tier == 'quick' else 3000):
+        n += 1
+        c = dict(c, each=0)
+        if n % 2:
+            yield dict(c, kind='hook', pairs=PAIRS[(n % 4) // 2::2], read=1 + (n // 2) % 2)
+        else:
+            yield dict(c, kind='forward', arrive=ARRIVE[:3], targets=TARGETS[(n % 4) // 2::2], copy='copy')
+
+
+def _wsgi_path(path):
+    return path.encode('utf8').decode('latin1')
+
+
+def _interpret(res, calls):
+    """The answer of one pass through Ombott.__call__ in the uniform shape of _router_common (kwargs dropped)."""
+    if res.exc is not None:
+        return ('exc', repr(res.exc))
+    code = res.code
+    if code == 200:
+        if len(calls) != 1:
+            return ('exc', 'status 200 but %d handler calls' % len(calls))
+        return ('ok', calls[0][0])
+    if calls:
+        return ('exc', 'status %s but a handler ran' % code)
+    if code == 404:
+        return ('404',)
+    if code == 405:
+        allow = res.header_all('Allow')
+        return ('405', sorted(x.strip().upper() for v in allow for x in v.split(',') if x.strip()))
+    return ('exc', 'status %s: %s' % (res.status, res.errors[-300:]))
+
+
+def _rewrite_failure(level, exp, obs, **det):
+    det = dict(det, level=level, expected=exp, observed=obs)
+    if exp[0] == '404' or obs[0] == '404':
+        return fail('K3.split', **det)
+    if exp[0] == 'ok':
+        return fail('K1.dispatch', **det)
+    return fail('K2.allow', **det)
+
+
+def _run_rewrite_case(case):
+    import ombott
+    from bounded.common import make_environ, serve
+    app = ombott.Ombott()
+    log = []
+    plan = {}
+    rules = [r for r, _f in case['rules']]
+    texts = [S.render(r, f) for r, f in case['rules']]
+    toks = [S.tokens(r) for r in rules]
+    handlers = {}
+    tables = {}
+
+    def new_handler(hid):
+        def handler(**kw):
+            log.append((hid, kw))
+            fw = plan.pop('forward', None)
+            if fw is not None:                      # internal forward: serve the application again
+                outer = log[:]
+                del log[:]
+                if fw['copy'] == 'copy':
+                    env = dict(app.request.environ)         # shallow copy of the environ of the current request
+                else:
+                    env = make_environ('/', 'GET')
+                env['REQUEST_METHOD'] = fw['verb']
+                env['PATH_INFO'] = _wsgi_path(fw['path'])
+                plan['inner'] = _interpret(serve(app, env), log[:])
+                log[:] = outer
+            return 'ok'
+        handler.hid = hid
+        return handler
+
+    def override():
+        if 'verb' not in plan:
+            return
+        request = app.request
+        if plan['read']:
+            plan['seen'] = request.method           # the override pattern looks at the verb first
+        request['REQUEST_METHOD'] = plan['verb']
+        if plan['read'] == 2:
+            plan['seen_after'] = request.method
+
+    if case['kind'] == 'hook':
+        app.add_hook('before_request', override)
+    for step, op in enumerate(case['ops']):
+        f = _apply_op(app, op, step, texts, toks, tables, handlers, new_handler)
+        if f:
+            return f
+    table_txt = {'/'.join(map(str, key)): v for key, v in tables.items()}
+
+    if case['kind'] == 'hook':
+        for path in case['paths']:
+            matched = _expected(rules, toks, tables, path, 'GET')[0] != ('404',)
+            for v0, v1 in (case['pairs'] if matched else PAIRS_404):
+                exp, _key = _expected(rules, toks, tables, path, v1)
+                if exp is None:
+                    continue
+                plan.clear()
+                plan.update(verb=v1, read=case['read'])
+                del log[:]
+                obs = _interpret(serve(app, make_environ(path, v0)), log[:])
+                if obs != exp:
+                    return _rewrite_failure('app+hook', exp, obs, path=path, arrived_as=v0, rewritten_to=v1,
+                                            hook_reads_method=case['read'], table=table_txt)
+        return None
+
+    # kind 'forward'
+    arrivals = []
+    for path0 in case['paths']:
+        for v0 in case['arrive']:
+            exp0, _key = _expected(rules, toks, tables, path0, v0)
+            if exp0 is not None and exp0[0] == 'ok':
+                arrivals.append((path0, v0, exp0))
+    arrivals = arrivals[:2] + arrivals[-2:] if len(arrivals) > 4 else arrivals
+    for path0, v0, exp0 in arrivals:
+        for path1 in case['paths']:
+            matched = _expected(rules, toks, tables, path1, 'GET')[0] != ('404',)
+            for v1 in (case['targets'] if matched else case['targets'][:2]):
+                exp, _key = _expected(rules, toks, tables, path1, v1)
+                if exp is None:
+                    continue
+                plan.clear()
+                plan['forward'] = dict(verb=v1, path=path1, copy=case['copy'])
+                del log[:]
+                res = serve(app, make_environ(path0, v0))
+                det = dict(arrived=[path0, v0], forwarded=[path1, v1], environ=case['copy'], table=table_txt)
+                if 'inner' not in plan:
+                    # the arrival itself is an ordinary request (clauses above); without it there is nothing to forward
+                    obs0 = _interpret(res, log[:])
+                    return _rewrite_failure('app', exp0, obs0 if obs0 != exp0 else ('exc', 'handler did not forward'), **det)
+                obs = plan['inner']
+                if obs != exp:
+                    return _rewrite_failure('app+forward', exp, obs, **det)
     return None
 
 
